@@ -31,6 +31,9 @@ Record c16case := mkCase {
   c_rx : list (bytes * option (list (bytes * bool)));   (* regexp oracle: pattern -> compiled? -> string -> match *)
   c_reads : list (rreq * list rres);                     (* results at P1..P6 *)
   c_tail : list obsop;    (* requests sent to the child after P5; P6 = the parent read once more *)
+  (* then phases: requests (configuration changes, restarts, branch requests) followed by reads of
+     named versions; every phase lists the same reads, and no phase but the first writes *)
+  c_phases : list (list obsop * list ((vref * rreq) * rres));
 }.
 
 Definition rx_of (tbl : list (bytes * option (list (bytes * bool)))) (pat : bytes) : option (bytes -> bool) :=
@@ -90,8 +93,12 @@ Fixpoint replay (V : variant) (s : state) (h : list obsop) : option state * bool
       match c with
       | Panic => (None, okc)
       | _ =>
+          let src := match ob_op ob, st_branch s' with
+                     | OpOnBranch _, Some b => s_data (b_head b)
+                     | _, _ => s_data (st_head s')
+                     end in
           let okb := forallb (fun p => opt_eqb obj_eqb (snd p)
-                                 (option_map (fun o => selectFields o [] sh11) (nget (fst p) (m_data (st_mem s')))))
+                                 (option_map (fun o => selectFields o [] sh11) (nget (fst p) src)))
                              (ob_back ob) in
           let '(fin, ok) := replay V s' r in (fin, okc && okb && ok)
       end
@@ -101,6 +108,22 @@ Definition final_ops (s : state) : list op :=
   if st_locked s then [OpNewVersion] else [OpCommit; OpNewVersion].
 
 (* the states at P1, P3 (= P2), P5 (= P4) and P6 *)
+(* the phases: each continues from the state the previous one left *)
+Fixpoint phases_ok (V : variant) (rx : bytes -> option (bytes -> bool)) (s : state)
+         (ps : list (list obsop * list ((vref * rreq) * rres))) : bool :=
+  match ps with
+  | [] => true
+  | (ops, reads) :: r =>
+      match replay V s ops with
+      | (Some s', ok) =>
+          ok && forallb (fun q => match read_ref rx V s' (fst (fst q)) (snd (fst q)) with
+                                  | Some x => rres_eqb x (snd q)
+                                  | None => false end) reads
+          && phases_ok V rx s' r
+      | (None, _) => false
+      end
+  end.
+
 Definition point_states (V : variant) (s : state) (tail : list obsop) : option (state * state * state * state * bool) :=
   match run V s (final_ops s) with
   | Ok s2 =>
@@ -131,6 +154,7 @@ Definition model_ok_gen (V : variant) (c : c16case) : bool :=
       | Some ps =>
           ok && (let '(_, _, _, _, okt) := ps in okt)
           && forallb (fun rr => points_eqb (points V (rx_of (c_rx c)) ps (fst rr)) (snd rr)) (c_reads c)
+          && (let '(_, _, _, s4, _) := ps in phases_ok V (rx_of (c_rx c)) s4 (c_phases c))
       | None => false
       end
   | (None, ok) => ok
@@ -141,7 +165,8 @@ Definition model_ok_gen (V : variant) (c : c16case) : bool :=
    3 values differ (key, all, keyvalues, keyrangevalues); 4 query results differ;
    5 schema metadata differ; 6 a field merge rule is violated; 7 a request panicked;
    8 fieldtimes differ; 9 the JSON schema in force differs.  8 and 9 are reported only when
-   nothing else fails (they are the two defects repaired by C16-7/8-fix.diff) *)
+   nothing else fails (they are the two defects repaired by C16-7/8-fix.diff); 10 a version read in
+   two phases answers differently in a history with a configuration hazard (repair C16-9) *)
 Definition req_class (r : rreq) : nat :=
   match r with
   | RKeys | RKeyRange _ _ | RHeadKey _ => 1
@@ -206,7 +231,10 @@ Fixpoint rules_walk (known : list (N * option obj)) (h : list obsop) : bool :=
   match h with
   | [] => true
   | ob :: r =>
-      let known' := fold_left (fun acc p => @aset N _ N.eqb (fst p) (snd p) acc) (ob_back ob) known in
+      let known' := match ob_op ob with
+                    | OpOnBranch _ => known
+                    | _ => fold_left (fun acc p => @aset N _ N.eqb (fst p) (snd p) acc) (ob_back ob) known
+                    end in
       let here :=
         match ob_op ob, ob_cls ob with
         | OpPost key body _ user conds replace t, OOk =>
@@ -222,18 +250,69 @@ Fixpoint rules_walk (known : list (N * option obj)) (h : list obsop) : bool :=
       here && rules_walk known' r
   end.
 
+(* the same read in two phases must give the same answer (nothing is written in between) *)
+Fixpoint zip_same (a b : list ((vref * rreq) * rres)) : option rreq :=
+  match a, b with
+  | x :: a', y :: b' => if rres_eqb (snd x) (snd y) then zip_same a' b' else Some (snd (fst x))
+  | _, _ => None
+  end.
+Definition phases_differ (c : c16case) : option rreq :=
+  match c_phases c with
+  | [] => None
+  | p0 :: r => fold_left (fun acc p => match acc with Some _ => acc | None => zip_same (snd p0) (snd p) end) r None
+  end.
+
+(* the configuration hazards repaired by C16-9: at a restart the "inmemory" setting names the
+   second branch before it exists, or a version that is still open *)
+Definition all_ops (c : c16case) : list op :=
+  map ob_op (c_hist c) ++ [OpCommit; OpNewVersion] ++ map ob_op (c_tail c) ++ flat_map (fun p => map ob_op (fst p)) (c_phases c).
+Fixpoint hazard_walk (ops : list op) (cfg : config) (mlen : nat) (mlocked : bool)
+         (br : option (nat * bool)) : bool :=
+  match ops with
+  | [] => false
+  | o :: r =>
+      match o with
+      | OpSetConfig c => hazard_walk r c mlen mlocked br
+      | OpReload =>
+          (cfg_branch cfg && match br with None => true | Some _ => false end)
+          || existsb (fun ref => match ref with
+                                 | VM a => negb (Nat.ltb a mlen || (Nat.eqb a mlen && mlocked))
+                                 | VB i => match br with
+                                           | Some (bl, bk) => negb (Nat.ltb i bl || (Nat.eqb i bl && bk))
+                                           | None => false end
+                                 end) (cfg_static cfg)
+          || hazard_walk r cfg mlen mlocked br
+      | OpCommit => hazard_walk r cfg mlen true br
+      | OpNewVersion => if mlocked then hazard_walk r cfg (S mlen) false br else hazard_walk r cfg mlen mlocked br
+      | OpBranch _ => hazard_walk r cfg mlen mlocked (match br with None => Some (O, false) | b => b end)
+      | OpOnBranch OpCommit => hazard_walk r cfg mlen mlocked (option_map (fun p : nat * bool => (fst p, true)) br)
+      | OpOnBranch OpNewVersion =>
+          hazard_walk r cfg mlen mlocked (option_map (fun p : nat * bool => if snd p then (S (fst p), false) else p) br)
+      | _ => hazard_walk r cfg mlen mlocked br
+      end
+  end.
+(* (an approximation of the history that is exact for accepted requests; the driver's hazard
+   cases contain no rejected commit / newversion / branch) *)
+Definition init_hazard (c : c16case) : bool := hazard_walk (all_ops c) no_cfg O false None.
+
 Definition spec_class (c : c16case) : nat :=
-  if existsb (fun ob => match ob_cls ob with OPanic => true | _ => false end) (c_hist c ++ c_tail c)
+  if existsb (fun ob => match ob_cls ob with OPanic => true | _ => false end)
+            (c_hist c ++ c_tail c ++ flat_map fst (c_phases c))
+     || existsb (fun p => existsb (fun q => is_xpanic (snd q)) (snd p)) (c_phases c)
      || existsb (fun rr => existsb is_xpanic (snd rr)) (c_reads c) then 7%nat
   else if negb (rules_walk [] (c_hist c)) then 6%nat
   else
     match find (fun rr => negb (same_answers rr) && Nat.ltb (req_class (fst rr)) 8) (c_reads c) with
-    | Some rr => req_class (fst rr)
+    | Some rr => if init_hazard c then 10%nat else req_class (fst rr)
     | None =>
+      match phases_differ c with
+      | Some r => if init_hazard c then 10%nat else req_class r
+      | None =>
         match find (fun rr => negb (same_answers rr)) (c_reads c) with
         | Some rr => req_class (fst rr)
         | None => 0%nat
         end
+      end
     end.
 
 Fixpoint classify_from (i : nat) (l : list c16case) : list (nat * nat) :=
